@@ -11,3 +11,29 @@ Theorem C10_witness_released :
   c10_oracle (kmodel_trace true true kinit c10_witness) = None /\ c14_oracle (kmodel_trace true true kinit c10_witness) = None.
 Proof. vm_compute. auto. Qed.
 Print Assumptions C10_witness_released.
+
+(* ---- Close concurrent with registration (any interleaving): the static part ----
+   The dynamic correspondence above works at quiescence granularity and cannot see a Close that runs between a
+   caller's "closed?" check and its registration.  The translator go2race regenerates the lock skeleton of every
+   function on every run; the generated obligation C10_gen_register_after_check evaluates Model/AtomCfg.atom_ok on it.
+   These theorems say what an accepted skeleton guarantees, for every path of any length. *)
+From MV Require Import Model.RaceCfg Model.AtomCfg Proofs.RaceSound Proofs.AtomSound.
+
+Theorem C10_register_after_check : forall L ins rd f, rctor f = false -> afunc_ok L ins rd f = true ->
+  forall p, rvalid f 0 p = true ->
+  forall a b, path_instrs f 0 p = a ++ RAccess true ins :: b ->
+  exists a1 a2, a = a1 ++ RAccess false rd :: a2 /\ Forall (quiet L) a2.
+Proof. exact insert_after_check. Qed.
+Print Assumptions C10_register_after_check.
+
+(* ... where a call counted as "quiet" cannot reach a lock operation however deep its own calls go *)
+Theorem C10_quiet_calls_never_lock : forall prog L, lcert_ok prog L = true -> forall g, reaches_lock prog g -> lk L g = true.
+Proof. exact lock_free. Qed.
+Print Assumptions C10_quiet_calls_never_lock.
+
+(* EVERY history: once the socket (or a dialer) is closed no connection attempt is started for it again *)
+From MV Require Import Proofs.CoreClose.
+Theorem C10_no_attempt_after_close_all_histories : forall h, wf_from [] h ->
+  c14_oracle (kmodel_trace true true kinit h) = None.
+Proof. exact no_attempt_after_close_all_histories. Qed.
+Print Assumptions C10_no_attempt_after_close_all_histories.
